@@ -22,21 +22,21 @@ open Generated.SubgraphSpecs
 
 /-! ## Obligations on the generated data -/
 
-/-- The accepted spec of each constructor name. -/
-def accepted (ctor : String) : Option CtorSpec :=
-  if ctor = "if_" then some ifSpec
-  else if ctor = "loop" then some (loopSpecWith (some [.n 1]))
-  else if ctor = "scan" then some scanSpec
-  else if ctor = "sequence_map" then some seqMapSpec
-  else none
+/-- The accepted specs of each constructor name. -/
+def accepted (ctor : String) : List CtorSpec :=
+  if ctor = "if_" then [ifSpec, ifSpecSwapped]
+  else if ctor = "loop" then [loopSpecWith (some [.n 1])]
+  else if ctor = "scan" then [scanSpec]
+  else if ctor = "sequence_map" then [seqMapSpec]
+  else []
 
 /-- Every function of the shipped `ai.onnx` modules that calls `subgraph` is one of the four
     control-flow constructors and has the accepted spec. -/
-theorem generated_good : table.all (fun e => accepted e.2.1 == some e.2.2) = true := by decide
+theorem generated_good : table.all (fun e => (accepted e.2.1).contains e.2.2) = true := by decide
 
 /-- The source strings in `tools/generate_opset.py` say the same as the generated modules. -/
 theorem generator_consistent :
-    genTable.all (fun e => accepted e.1 == some e.2) = true
+    genTable.all (fun e => (accepted e.1).contains e.2) = true
       ∧ ctorNames.all (fun c => genTable.any (fun e => e.1 == c)) = true := by decide
 
 /-- Every control-flow constructor of every shipped module resolves to a function in `table`. -/
@@ -57,22 +57,26 @@ def extra : List String :=
 theorem sites_good : extra = [] ∧ "spox._graph.subgraph" ∈ Generated.CallbackSites.invokers := by
   decide
 
-theorem spec_of_table {m c : String} {s : CtorSpec} (h : (m, c, s) ∈ table) : accepted c = some s := by
+theorem spec_of_table {m c : String} {s : CtorSpec} (h : (m, c, s) ∈ table) : s ∈ accepted c := by
   have := List.all_eq_true.1 generated_good (m, c, s) h
   simpa using this
 
 /-! ## `args_prescribed` -/
 
-/-- **If** (every shipped module): the branches are called with no arguments, `else_branch` first. -/
+/-- **If** (every shipped module): each branch is called exactly once, with no arguments (the log
+    grows by exactly these two events, in the order of the two `subgraph(…)` calls in the source). -/
 theorem args_prescribed_if {m : String} {s : CtorSpec} (h : (m, "if_", s) ∈ table)
     (env : Env) (cbs : Callbacks) (w : World) (n1 n2 : Nat)
     (h1 : (cbs "else_branch").2 = .returnsVars n1) (h2 : (cbs "then_branch").2 = .returnsVars n2) :
-    (construct s env cbs w).2
-      = ⟨⟨(cbs "then_branch").1, [], ifPresc⟩ :: ⟨(cbs "else_branch").1, [], ifPresc⟩ :: w.events,
-          w.fresh⟩ := by
-  have hs : s = ifSpec := by have := spec_of_table h; simp [accepted] at this; exact this.symm
-  subst hs
-  exact construct_if_world env cbs w n1 n2 h1 h2
+    let eT : Event := ⟨(cbs "then_branch").1, [], ifPresc⟩
+    let eE : Event := ⟨(cbs "else_branch").1, [], ifPresc⟩
+    (construct s env cbs w).2 = ⟨eT :: eE :: w.events, w.fresh⟩
+      ∨ (construct s env cbs w).2 = ⟨eE :: eT :: w.events, w.fresh⟩ := by
+  have hs := spec_of_table h
+  simp only [accepted, if_true, List.mem_cons, List.not_mem_nil, or_false] at hs
+  rcases hs with rfl | rfl
+  · exact Or.inl (construct_if_world env cbs w n1 n2 h1 h2)
+  · exact Or.inr (construct_if_world_swapped env cbs w n1 n2 h1 h2)
 
 /-- **SequenceMap** (every shipped module), any element type, any number of additional inputs, each a
     sequence or a tensor of any dtype / shape / rank: the body is called exactly once with fresh
@@ -88,7 +92,7 @@ theorem args_prescribed_sequence_map {m : String} {s : CtorSpec} (h : (m, "seque
             :: w.events,
           w.fresh + (seqMapPresc elem extra).length⟩ := by
   have hs' : s = seqMapSpec := by
-    have := spec_of_table h; simp [accepted] at this; exact this.symm
+    have := spec_of_table h; simpa [accepted] using this
   subst hs'
   exact construct_single_world "body" seqMapTypes "body" 0 env cbs w _
     (eval_seqMap env elem extra hs hl) hc
@@ -108,7 +112,7 @@ theorem args_prescribed_scan_partial {m : String} {s : CtorSpec} (h : (m, "scan"
             :: w.events,
           w.fresh + (scanPresc ops k axes).length⟩ := by
   have hs' : s = scanSpec := by
-    have := spec_of_table h; simp [accepted] at this; exact this.symm
+    have := spec_of_table h; simpa [accepted] using this
   subst hs'
   have hax' : scanPresc ops k axes = scanPresc ops k none := by
     cases axes with
@@ -130,7 +134,7 @@ theorem args_prescribed_loop_partial {m : String} {s : CtorSpec} (h : (m, "loop"
             loopPrescWith (some [.n 1]) carried⟩ :: w.events,
           w.fresh + (carried.length + 2)⟩ := by
   have hs' : s = loopSpecWith (some [.n 1]) := by
-    have := spec_of_table h; simp [accepted] at this; exact this.symm
+    have := spec_of_table h; simpa [accepted] using this
   subst hs'
   have := construct_single_world "body" (loopTypes (some [.n 1])) "body" 1 env cbs w _
     (eval_loop env (some [.n 1]) carried hl) hc
@@ -266,19 +270,24 @@ theorem out_count {m c : String} {s : CtorSpec} (h : (m, c, s) ∈ table)
   unfold accepted at hacc
   refine ⟨n, ?_, ?_⟩ <;> (split at hacc)
   all_goals first
-    | (simp only [Option.some.injEq] at hacc; subst hacc; subst_vars; simpa [outCount, ifSpec] using (by assumption))
+    | (simp only [List.mem_cons, List.not_mem_nil, or_false] at hacc
+       rcases hacc with rfl | rfl <;> subst_vars <;>
+         simpa [outCount, ifSpec, ifSpecSwapped] using (by assumption))
     | skip
   all_goals (split at hacc)
   all_goals first
-    | (simp only [Option.some.injEq] at hacc; subst hacc; subst_vars; simpa [outCount, loopSpecWith] using (by assumption))
+    | (simp only [List.mem_cons, List.not_mem_nil, or_false] at hacc; subst hacc; subst_vars
+       simpa [outCount, loopSpecWith] using (by assumption))
     | skip
   all_goals (split at hacc)
   all_goals first
-    | (simp only [Option.some.injEq] at hacc; subst hacc; subst_vars; simpa [outCount, scanSpec] using (by assumption))
+    | (simp only [List.mem_cons, List.not_mem_nil, or_false] at hacc; subst hacc; subst_vars
+       simpa [outCount, scanSpec] using (by assumption))
     | skip
   all_goals (split at hacc)
   all_goals first
-    | (simp only [Option.some.injEq] at hacc; subst hacc; subst_vars; simpa [outCount, seqMapSpec] using (by assumption))
+    | (simp only [List.mem_cons, List.not_mem_nil, or_false] at hacc; subst hacc; subst_vars
+       simpa [outCount, seqMapSpec] using (by assumption))
     | (simp at hacc)
 
 /-! ## `bad_callbacks_typeerror` -/
